@@ -57,6 +57,20 @@ def pkt2 (gbc : Bool) (key f r o p sSrc sSnd : String) : String :=
     | _, _, _, _ => "bad-op"
   | _, _, _ => "bad-op"
 
+/-- whole-packet decision in a state of the forwarder: "gbc3|gac3 bc source|sender F(ego) rhl oversize pdr se(source) se(sender)",
+    bc = no neighbour in the location table and SCF traffic class -/
+def pkt3 (gbc : Bool) (bc key f r o p sSrc sSnd : String) : String :=
+  match bool? bc, (if key = "source" then some SeKey.source else if key = "sender" then some SeKey.sender else none),
+        se? sSrc, se? sSnd with
+  | some bc, some k, some sSrc, some sSnd =>
+    let se := match k with | .source => sSrc | .sender => sSnd
+    match rat? f, nat? r, bool? o, bool? p with
+    | some f, some r, some o, some p =>
+      let i : RxIn := ⟨f, r, o, p, se⟩
+      "[" ++ " ".intercalate ((if gbc then recvGBCst bc i else recvGACst bc i).map actStr) ++ "]"
+    | _, _, _, _ => "bad-op"
+  | _, _, _, _ => "bad-op"
+
 /-- "-" (attribute absent) or an integer -/
 def optInt? (s : String) : Option (Option Int) := if s = "-" then some none else (int? s).map some
 
@@ -137,6 +151,8 @@ def areaStep (_ : Unit) (t : List String) : Unit × String :=
       let p := codeFrame c sn n e
       ((), s!"{b01 (decide (c * c + sn * sn = 1))} {p.1.num}/{p.1.den} {p.2.num}/{p.2.den}")
     | _, _, _, _ => ((), "bad-op")
+  | ["gbc3", bc, key, f, r, o, p, sSrc, sSnd] => ((), pkt3 true bc key f r o p sSrc sSnd)
+  | ["gac3", bc, key, f, r, o, p, sSrc, sSnd] => ((), pkt3 false bc key f r o p sSrc sSnd)
   | ["gbc2", key, f, r, o, p, sSrc, sSnd] => ((), pkt2 true key f r o p sSrc sSnd)
   | ["gac2", key, f, r, o, p, sSrc, sSnd] => ((), pkt2 false key f r o p sSrc sSnd)
   | ["size", s, a, b, m] =>
